@@ -4,6 +4,7 @@ usage: validation.py SCENARIOS.json TRACES.json"""
 import enum
 import inspect
 import json
+import zlib
 import logging
 import sys
 from typing import Dict, List, Optional  # noqa: F401
@@ -141,7 +142,11 @@ def run(scn):
     is_schema = s['validator'] == 'schema'
     excl = {'dep': lambda name, ann, default: name == 'dep',
             'dep_ann': lambda name, ann, default: ann is inspect.Parameter.empty}.get(s['extra'])
-    is_view = s.get('flavour') == 'view' 
+    is_view = s.get('flavour') == 'view'
+    # a view receives its context through the constructor: the designation may well be the name of a parameter of the method,
+    # which stays an ordinary, validated client parameter (variant chosen by content)
+    h = zlib.crc32(json.dumps(scn, sort_keys=True).encode())
+    ctxname = 'p1' if (is_view and s['extra'] == 'ctx' and names and h % 2) else 'ctx'
     if s['vsrc'] != 'fresh':
         val = shared(s['validator'])
     elif is_schema:
@@ -185,11 +190,11 @@ def run(scn):
     d = Dispatcher()
     if is_view:
         class View(ViewMixin):
-            def __init__(self, ctx=None):
+            def __init__(self, context=None):      # the library passes the context positionally, whatever it is called
                 super().__init__()
-                self.ctx = ctx
+                self.ctx = context
         View.m = m
-        d.registry.view(View, context='ctx' if s['extra'] == 'ctx' else None)
+        d.registry.view(View, context=ctxname if s['extra'] == 'ctx' else None)
     else:
         d.add(m, 'm', context='ctx' if s['extra'] == 'ctx' else None)
     provided = [(n, VALUES[v]) for n, v in zip(names, s['vals']) if v != 'omit']
